@@ -24,13 +24,13 @@ SHAPES = ((4, 4, 16), (3, 1, 8), (1, 5, 32))
 DM0, P0 = 30.0, 0.1
 # observation geometry of the current case: the default one, or a dyadic one (period 1 s, 64 s of data, 32 bins) in which period
 # drifts of whole and exactly half bins occur, so that round-half-even decisions are exercised with exact arithmetic
-_cfg = {"P0": P0, "tsamp": 1e-3, "nsamples": 100000}
+_cfg = {"P0": P0, "tsamp": 1e-3, "nsamples": 100000, "nchans": 64}
 DYADIC = {"P0": 1.0, "tsamp": 2.0 ** -10, "nsamples": 65536}
 DYADIC_SHAPES = ((4, 1, 32), (8, 2, 32))
 
 
 def REQUIRED(tier):
-    return ["histories", "hook_checks", "rotation_checks", "law:repeat_noop", "law:return_restores", "law:history_independence", "ops:update_dm", "ops:update_period", "shape:single_subband", "shape:single_subint", "layout:F", "layout:transposed_view", "layout:strided_view", "dyadic_histories", "exact_half_bin_states"]
+    return ["histories", "hook_checks", "rotation_checks", "law:repeat_noop", "law:return_restores", "law:history_independence", "ops:update_dm", "ops:update_period", "shape:single_subband", "shape:single_subint", "layout:F", "layout:transposed_view", "layout:strided_view", "dyadic_histories", "exact_half_bin_states", "ops:centre_copy_retuned", "nchans:64", "nchans:128"]
 
 
 def EXHAUSTIVE(tier):
@@ -51,9 +51,9 @@ def cases(tier, seed):
                 yield {"kind": "lattice", "shape": si, "L": L, "prefix": [first, second]}
     rng = np.random.default_rng([seed, 1717])
     for k in range(100 if tier == "quick" else 2000):
-        yield {"kind": "random", "shape": int(rng.integers(0, 3)), "hseed": int(seed) * 100003 + k, "len": 50, "layout": LAYOUTS[k % 4]}
+        yield {"kind": "random", "shape": int(rng.integers(0, 3)), "hseed": int(seed) * 100003 + k, "len": 50, "layout": LAYOUTS[k % 4], "nchans": [64, 128, 32][k % 3]}
     for si in range(len(DYADIC_SHAPES)):
-        for first in range(8):
+        for first in range(9):
             yield {"kind": "dyadic", "shape": si, "first": first}
     for si in range(len(SHAPES)):      # the length-2 lattice again on non-contiguous cubes
         for lay in LAYOUTS[1:]:
@@ -65,7 +65,7 @@ def cases(tier, seed):
 def _hdr():
     from sigpyproc.header import Header
 
-    return Header(filename="x.fil", data_type="filterbank", nchans=64, foff=-1.0, fch1=400.0, nbits=8, tsamp=_cfg["tsamp"], tstart=58000.0, nsamples=_cfg["nsamples"])
+    return Header(filename="x.fil", data_type="filterbank", nchans=_cfg["nchans"], foff=-1.0, fch1=400.0, nbits=8, tsamp=_cfg["tsamp"], tstart=58000.0, nsamples=_cfg["nsamples"])
 
 
 LAYOUTS = ("C", "F", "transposed_view", "strided_view")
@@ -163,6 +163,23 @@ def run_history(ctx, shape, ops, rec):
     targets = set()
     for step, (kind, val) in enumerate(ops):
         before = np.asarray(fd.data).copy()
+        if kind == "c":
+            # a centred copy is taken and re-tuned to the folding values: that is another cube, this one must not notice
+            try:
+                with np.errstate(all="ignore"):
+                    der = fd.centre()
+                    der.update_dm(DM0)
+                    der.update_period(P0)
+                    der.update_dm(DM0 + 5)
+                ctx.count("ops:centre_copy_retuned")
+            except Exception:  # noqa: BLE001
+                ctx.count("ops:centre_unavailable")   # profiles shorter than the matched-filter templates
+            if not np.array_equal(before, np.asarray(fd.data)):
+                ctx.violation("cube-changed-by-derived-copy", f"step {step}: re-tuning the cube returned by centre() changed the original cube", rec)
+                return False
+            if not check_state(ctx, fd, base, shape, dm, period, visited, rec, step):
+                return False
+            continue
         try:
             if kind == "dm":
                 ctx.count("ops:update_dm")
@@ -211,11 +228,13 @@ def run_history(ctx, shape, ops, rec):
 
 def dyadic_alphabet():
     P = DYADIC["P0"]
-    return [("p", P), ("p", P * (1 + 1 / 2048)), ("p", P * (1 + 2 / 2048)), ("p", P * (1 + 3 / 2048)), ("p", P * (1 + 5 / 2048)), ("p", P * (1 - 2 / 2048)), ("dm", DM0), ("dm", DM0 + 5)]
+    return [("p", P), ("p", P * (1 + 1 / 2048)), ("p", P * (1 + 2 / 2048)), ("p", P * (1 + 3 / 2048)), ("p", P * (1 + 5 / 2048)), ("p", P * (1 - 2 / 2048)), ("dm", DM0), ("dm", DM0 + 5), ("c", 0.0)]
 
 
 def run_case(case, ctx):
-    _cfg.update({"P0": P0, "tsamp": 1e-3, "nsamples": 100000})
+    # cubes of two observations share fch1/foff/number of sub-bands but not the channel count (a full band and its upper half)
+    _cfg.update({"P0": P0, "tsamp": 1e-3, "nsamples": 100000, "nchans": int(case.get("nchans", 64))})
+    ctx.count(f"nchans:{_cfg['nchans']}")
     if case["kind"] == "dyadic" or case.get("dyadic"):
         _cfg.update(DYADIC)
         _layout["cur"] = "C"
@@ -261,10 +280,12 @@ def run_case(case, ctx):
     rng = np.random.default_rng([case["hseed"], 5])
     ops = []
     for _ in range(case["len"]):
-        if rng.random() < 0.5:
+        if rng.random() < 0.08:
+            ops.append(("c", 0.0))
+        elif rng.random() < 0.5:
             ops.append(("dm", float(rng.choice([DM0, DM0 + float(rng.integers(-40, 41)), DM0 + float(rng.uniform(-40, 40)), DM0 + float(rng.uniform(-3000, 3000))]))))
         else:
             ops.append(("p", float(P0 * (1 + rng.choice([0.0, float(rng.uniform(-1e-3, 1e-3)), 1e-4, -1e-4, float(rng.uniform(-2e-5, 2e-5)), float(rng.uniform(-5e-3, 5e-3))])))))
-    rec = {"kind": "history", "shape": case["shape"], "ops": [list(o) for o in ops], "layout": _layout["cur"]}
+    rec = {"kind": "history", "shape": case["shape"], "ops": [list(o) for o in ops], "layout": _layout["cur"], "nchans": case.get("nchans", 64)}
     if run_history(ctx, shape, ops, rec) and case["hseed"] % 25 == 0:
         ctx.sample({"shape": list(shape), "random_history_head": [list(o) for o in ops[:6]], "length": len(ops)})
